@@ -89,6 +89,10 @@ F: Dict[str, Dict[str, Any]] = {
     'star-pkg-no-all-submodule': {'a': 'class Sh44:\n    "sh doc"\n', 'c': 'from p import *\nclass Ci44(a.Sh44): pass\n'},
     'docupdate-via-pkg-alias': {'b': 'class Foo43:\n    "orig"\n    def m(self): "orig m"\n', 'c': 'import p as pp43\npp43.b.Foo43.__doc__ = "patched"\npp43.b.Foo43.m.__doc__ = "patched m"\n'},
     'docupdate-via-pkg-from': {'b': 'def g45():\n    "orig"\n', 'a': 'from p import b as mb45\n', 'c': 'from p import a as ma45\nma45.mb45.g45.__doc__ = "patched"\n'},
+    # star import from the DEFINING module of an object a sibling re-exports; a cycle entered through a module alias named like the package
+    'reexport-sib-star-definer-consumer': {'a': 'class R46:\n    "r doc"\n    def m(self): "m doc"\n', 'b': 'from .a import R46\n__all__=["R46"]\n', 'c': 'from .a import *\nclass C46(R46):\n    def m(self): pass\n'},
+    'cycle-alias-named-like-package': {'a': 'from . import b\nclass Rule47:\n    "rule doc"\n    def apply(self): "apply doc"\n',
+                                       'b': 'from . import p\nclass Discount47(p.Rule47):\n    def apply(self): pass\nclass Big47(Discount47): pass\n', '__cyclic__': True},
     'cycle':        {'a': 'from .b import B17\nclass A17: pass\nclass A17b(B17): pass\n', 'b': 'from .a import A17\nclass B17(A17): pass\n', '__cyclic__': True},
     'cycle3':       {'a': 'from .b import B27\nclass A27(B27): pass\n', 'b': 'from .c import C27\nclass B27(C27): pass\n', 'c': 'from . import a\nclass C27: pass\nclass D27(a.A27): pass\n', '__cyclic__': True},
     'tc-cycle':     {'a': 'from typing import TYPE_CHECKING\nif TYPE_CHECKING:\n    from .b import B18\nclass A18: pass\n', 'b': 'from .a import A18\nclass B18(A18): pass\n', '__cyclic__': True},
@@ -97,6 +101,8 @@ NAMES = list(F)
 
 # skeletons: list of (module key, name, parent, is_package); the key 'p' is the root package
 SKEL = {
+    # module key 'a' is a module named like its package: p.p
+    'selfnamed': [('p', 'p', None, True), ('a', 'p', 'p', False), ('b', 'b', 'p', False), ('c', 'c', 'p', False)],
     'flat': [('p', 'p', None, True), ('a', 'a', 'p', False), ('b', 'b', 'p', False), ('c', 'c', 'p', False)],
     # sub-package: modules b and c live in p.s; sources are rewritten accordingly
     'sub':  [('p', 'p', None, True), ('a', 'a', 'p', False), ('s', 's', 'p', True), ('b', 'b', 'p.s', False), ('c', 'c', 'p.s', False), ('z', 'z', 'p', False)],
@@ -112,6 +118,8 @@ def rewrite(src: str, home: str, skel: str) -> str:
     """Adapt a feature source written for p{a,b,c} to another skeleton."""
     if skel == 'flat' or not src:
         return src
+    if skel == 'selfnamed':
+        return src      # sources for this skeleton are written for it
     loc = {'flat': {}, 'sub': {'b': 'p.s.b', 'c': 'p.s.c', 'a': 'p.a'}, 'roots': {'a': 'p.a', 'b': 'p.b', 'c': 'q.c'},
            'deeproots': {'a': 'p.a', 'b': 'p.s.b', 'c': 'q.c'}}[skel]
     out = src
@@ -398,6 +406,8 @@ def jobs(tier: str) -> Iterable[Tuple[str, Any]]:
         yield ('sub:features<=1', ('prog', [f], 'sub', 0))
         yield ('roots:features<=1', ('prog', [f], 'roots', 0))
         yield ('deeproots:features<=1', ('prog', [f], 'deeproots', 0))
+    for f in ('cycle-alias-named-like-package', 'cycle', 'cycle3', 'base-from', 'docformat'):
+        yield ('selfnamed:features<=1', ('prog', [f], 'selfnamed', 0))
     for i in range(0, len(NAMES), 4):
         yield ('disk:features<=1', ('disk', NAMES[i:i + 4]))
     if K >= 3:
